@@ -78,8 +78,8 @@ theorem invalid_request_judged (fs : Facts) (stype : Str) (acts : List SAct) (h 
     (hinv : invalidReq fs acts r = true) :
     rawOk fs stype acts r script seen (obsOf (serverHandle fs stype acts h r)) = true := by
   rcases invalid_cases fs stype acts h r hinv with ⟨reason, h1⟩ | h2
-  · rw [h1]; simp [obsOf, rawOk, hinv, isClientError]
-  · rw [h2]; simp [obsOf, rawOk, hinv, parseFault_faultDoc]
+  · rw [h1]; cases hm : mustReject fs acts r <;> simp [obsOf, rawOk, hinv, hm, isClientError]
+  · rw [h2]; cases hm : mustReject fs acts r <;> simp [obsOf, rawOk, hinv, hm, parseFault_faultDoc]
 
 /-! ### handler-raised action errors -/
 
@@ -93,7 +93,7 @@ theorem handler_error_propagates (fs : Facts) (stype : Str) (acts : List SAct) (
     clientDecode fs stype cact (serverHandle fs stype acts h r) = .actionError (some c) (some 500) := by
   obtain ⟨act, _, _, _, hs⟩ := serverHandle_reached (stype := stype) (h := h) hi
   rw [hs, he]
-  simp only [hc, ↓reduceIte]
+  simp only [renderResult, hc, ↓reduceIte]
   exact clientDecode_fault fs stype cact c
 
 /-- an error without a code (or code 0) is reported as 501 "Action Failed" -/
@@ -155,7 +155,7 @@ theorem call_roundtrip (fs : Facts) (stype : Str) (sacts : List SAct) (sact : SA
     rw [hc]
     simp only
     rw [hs, hh]
-    simp only [responseKids_ok hv]
+    simp only [renderResult, responseKids_ok hv]
     rw [clientDecode_cactOf]
     exact response_reaches_caller hv
 
@@ -434,7 +434,7 @@ theorem call_request_c06 (O : C06.Oracles) (a : C06.ActionDecl) (kw : C06.Kwargs
     (hreq : C06.createRequest O Gen.C06Types.escapeExtra Gen.C06Types.nsAttrQuoted a kw = .ok req)
     (fs : Facts) (stype : Str) (sacts : List SAct) (sact : SAct) (args : List (Str × Val))
     (ha : a.name = sact.name) (hst : a.serviceType = stype)
-    (hagree : C06.coerceArgs a.inArgs kw = .ok (sact.ins.map fun x => (x.name, out (argVal args x))))
+    (hagree : C06.coerceArgs O a.inArgs kw = .ok (sact.ins.map fun x => (x.name, out (argVal args x))))
     (hxn : C06.xmlNameOk sact.name = true) (hxa : ∀ x ∈ sact.ins, C06.xmlNameOk x.name = true)
     (hbr : '}' ∉ stype)
     (h1 : '#' ∉ stype) (h2 : '"' ∉ stype) (h3 : '#' ∉ sact.name) (h4 : '"' ∉ sact.name)
